@@ -909,6 +909,127 @@ static void run_ms_session(vrng *r, int steps)
    if (pj) opus_projection_decoder_destroy(pj);
 }
 
+/* ------------------------------------------------------------------ packet-inspection functions read only the packet
+   "Every packet-inspection function reads only the packet" (C01): opus_packet_get_bandwidth / _nb_channels /
+   _samples_per_frame / _nb_frames / _nb_samples, opus_decoder_get_nb_samples, opus_packet_has_lbrr, opus_packet_parse,
+   opus_packet_parse_impl(self_delimited) and opus_multistream_packet_validate are evaluated
+     - on an exact-size heap copy of the packet (the sanitizer build reports any access outside it), and
+     - on a copy followed by guard bytes set to 0x00, 0xFF and 0x5A: a result that differs depends on bytes behind the
+       packet (no sanitizer needed);
+   the frame pointers opus_packet_parse returns must lie inside the packet; opus_packet_has_lbrr is also compared with the
+   model (`decskel lbrr`).  Packets: every 1-byte and 2-byte packet, structured 3- and 4-byte packets (every TOC x
+   interesting count / size bytes), synthetic framings of every code, real encoder packets, and truncations / bit flips. */
+#define INSP_NV 24
+typedef struct { int v[INSP_NV]; } insp_res;
+static const char *INSP_NAME[INSP_NV] = {"opus_packet_get_bandwidth", "opus_packet_get_nb_channels", "opus_packet_get_samples_per_frame(48000)",
+   "opus_packet_get_samples_per_frame(8000)", "opus_packet_get_nb_frames", "opus_packet_get_nb_samples(48000)", "opus_packet_get_nb_samples(16000)",
+   "opus_decoder_get_nb_samples", "opus_packet_has_lbrr", "opus_packet_parse", "opus_packet_parse toc", "opus_packet_parse payload_offset",
+   "opus_packet_parse sizes", "opus_packet_parse frames", "opus_packet_parse_impl(self_delimited)", "opus_packet_parse_impl packet_offset",
+   "opus_packet_parse_impl sizes", "opus_multistream_packet_validate(1)", "opus_multistream_packet_validate(2)", "opus_multistream_packet_validate(3)",
+   "opus_packet_parse_impl padding", "-", "-", "-"};
+static int insp_frames_ok;
+static void insp_eval(const unsigned char *p, long len, OpusDecoder *dec, insp_res *o)
+{
+   const unsigned char *fr[48]; opus_int16 sz[48]; unsigned char toc = 0; int po = 0, k = 0, i, ret; opus_int32 pko = 0, padlen = 0;
+   const unsigned char *pad = NULL;
+   memset(o, 0, sizeof *o);
+   o->v[k++] = opus_packet_get_bandwidth(p);
+   o->v[k++] = opus_packet_get_nb_channels(p);
+   o->v[k++] = opus_packet_get_samples_per_frame(p, 48000);
+   o->v[k++] = opus_packet_get_samples_per_frame(p, 8000);
+   o->v[k++] = opus_packet_get_nb_frames(p, (opus_int32)len);
+   o->v[k++] = opus_packet_get_nb_samples(p, (opus_int32)len, 48000);
+   o->v[k++] = opus_packet_get_nb_samples(p, (opus_int32)len, 16000);
+   o->v[k++] = opus_decoder_get_nb_samples(dec, p, (opus_int32)len);
+   o->v[k++] = opus_packet_has_lbrr(p, (opus_int32)len);
+   ret = opus_packet_parse(p, (opus_int32)len, &toc, fr, sz, &po);
+   o->v[k++] = ret;
+   if (ret > 0) {
+      unsigned sum = 0, h = 0;
+      for (i = 0; i < ret; i++) {
+         sum = sum * 31u + (unsigned)sz[i]; h = h * 31u + (unsigned)(fr[i] - p);
+         if (fr[i] < p || fr[i] + sz[i] > p + len || sz[i] < 0) insp_frames_ok = 0;
+      }
+      o->v[k++] = toc; o->v[k++] = po; o->v[k++] = (int)(sum & 0x7fffffff); o->v[k++] = (int)(h & 0x7fffffff);
+   } else k += 4;
+   ret = opus_packet_parse_impl(p, (opus_int32)len, 1, &toc, fr, sz, &po, &pko, &pad, &padlen);
+   o->v[k++] = ret;
+   if (ret > 0) {
+      unsigned sum = 0;
+      for (i = 0; i < ret; i++) { sum = sum * 31u + (unsigned)sz[i]; if (fr[i] < p || fr[i] + sz[i] > p + len || sz[i] < 0) insp_frames_ok = 0; }
+      if (pko < 0 || pko > len) insp_frames_ok = 0;
+      if (padlen < 0 || (padlen > 0 && (pad < p || pad + padlen > p + len))) insp_frames_ok = 0;
+      o->v[k++] = (int)pko; o->v[k++] = (int)(sum & 0x7fffffff);
+   } else k += 2;
+   o->v[k++] = opus_multistream_packet_validate(p, (opus_int32)len, 1, 48000);
+   o->v[k++] = opus_multistream_packet_validate(p, (opus_int32)len, 2, 48000);
+   o->v[k++] = opus_multistream_packet_validate(p, (opus_int32)len, 3, 16000);
+   o->v[k++] = ret > 0 ? (int)padlen : 0;
+}
+static void insp_packet(const unsigned char *pkt, long len, OpusDecoder *dec, int tie)
+{
+   static const unsigned char GV[3] = {0x00, 0xFF, 0x5A};
+   insp_res rx, rg[3]; unsigned char *p, *g; int gi, k; long j; int hl;
+   if (len < 1 || len > 20000) return;
+   G.n_calls++;
+   {  long q = sprintf(G.pending, "decskel lbrr x");
+      static const char d[] = "0123456789abcdef";
+      for (j = 0; j < len; j++) { G.pending[q++] = d[pkt[j] >> 4]; G.pending[q++] = d[pkt[j] & 15]; }
+      G.pending[q] = 0; }
+   p = vexact(pkt, len);
+   if (tie && !G.quiet) { printf("I %s\n", G.pending); fflush(stdout); }
+   insp_frames_ok = 1;
+   insp_eval(p, len, dec, &rx);
+   hl = rx.v[8];
+   if (tie && !G.quiet) { if (hl < 0) printf("O %s\n", verr(hl)); else printf("O %d\n", hl); }
+   if (!insp_frames_ok) witness("inspect", "opus_packet_parse returned a frame / padding / packet_offset outside the %ld-byte packet", len);
+   if (hl != 0 && hl != 1 && hl != OPUS_BAD_ARG && hl != OPUS_INVALID_PACKET) witness("inspect", "opus_packet_has_lbrr returned %d", hl);
+   free(p);
+   g = (unsigned char *)malloc((size_t)len + 16);
+   memcpy(g, pkt, (size_t)len);
+   for (gi = 0; gi < 3; gi++) { memset(g + len, GV[gi], 16); insp_eval(g, len, dec, &rg[gi]); }
+   free(g);
+   for (k = 0; k < INSP_NV; k++)
+      if (rg[0].v[k] != rg[1].v[k] || rg[0].v[k] != rg[2].v[k] || rg[0].v[k] != rx.v[k]) {
+         witness("inspect", "%s depends on bytes behind the %ld-byte packet (%d / %d / %d with guard bytes 00 / ff / 5a)", INSP_NAME[k], len, rg[0].v[k], rg[1].v[k], rg[2].v[k]);
+         break;
+      }
+   G.pending[0] = 0;
+}
+static void run_insp(vrng *r, long n)
+{
+   static unsigned char b[90000]; long i, len; int t, a, c, e, err;
+   static const unsigned char B1[] = {0, 1, 2, 3, 47, 48, 49, 63, 64, 65, 66, 0x80, 0x81, 0x82, 0xC0, 0xC1, 0xC2, 0xC3, 250, 251, 252, 253, 254, 255};
+   static const unsigned char B2[] = {0, 1, 2, 3, 251, 252, 253, 254, 255};
+   OpusDecoder *dec = opus_decoder_create(RATES[vbelow(r, 5)], 1 + vbelow(r, 2), &err);
+   vsrc src; static const int DUR[] = {1, 2, 4, 8, 16, 24, 32, 40, 48};
+   static const int apps[3] = {OPUS_APPLICATION_VOIP, OPUS_APPLICATION_AUDIO, OPUS_APPLICATION_RESTRICTED_LOWDELAY};
+   for (t = 0; t < 256; t++) { b[0] = (unsigned char)t; insp_packet(b, 1, dec, 1); }
+   for (t = 0; t < 256; t++) for (a = 0; a < 256; a++) { b[0] = (unsigned char)t; b[1] = (unsigned char)a; insp_packet(b, 2, dec, 1); }
+   for (t = 0; t < 256; t++) for (a = 0; a < (int)sizeof B1; a++) for (c = 0; c < (int)sizeof B2 + 1; c++) {
+      int tie = ((t + a + c) & 3) == 0;
+      b[0] = (unsigned char)t; b[1] = B1[a]; b[2] = c < (int)sizeof B2 ? B2[c] : (unsigned char)vnext(r);
+      insp_packet(b, 3, dec, tie);
+      for (e = 0; e < 3; e++) { b[3] = e == 0 ? 0 : e == 1 ? 255 : (unsigned char)vnext(r); insp_packet(b, 4, dec, tie && e == 2); }
+   }
+   for (i = 0; i < n; i++) {
+      int k = vbelow(r, 100), reps = 12, j;
+      src_open(&src, r, apps[vbelow(r, 3)]); src_ctl(&src, r, vchance(r, 50) ? OPUS_AUTO : (vchance(r, 70) ? MODE_SILK_ONLY : MODE_HYBRID));
+      for (j = 0; j < reps; j++) {
+         if (k < 45) len = src_packet(&src, r, DUR[vbelow(r, 9)], b, 1500);
+         else len = gen_packet(r, vchance(r, 30), b, vchance(r, 5));
+         if (len < 1) continue;
+         insp_packet(b, len, dec, 1);
+         if (vchance(r, 60)) { long cut = 1 + (long)vbelow(r, (uint32_t)len); insp_packet(b, cut, dec, 1); }              /* truncation */
+         if (vchance(r, 50)) { long at = vbelow(r, (uint32_t)(len < 4 ? len : 4)); b[at] ^= (unsigned char)(1u << vbelow(r, 8)); insp_packet(b, len, dec, 1); }
+         /* the first frame emptied: SILK / hybrid TOC with a zero first size (codes 2 and 3) */
+         if (vchance(r, 30)) { b[0] = (unsigned char)((b[0] & 0xFC) | 2); b[1] = 0; insp_packet(b, 2 + (long)vbelow(r, 3), dec, 1); }
+      }
+      opus_encoder_destroy(src.enc);
+   }
+   opus_decoder_destroy(dec);
+}
+
 #ifndef C01_NO_MAIN
 int main(int argc, char **argv)
 {
@@ -921,7 +1042,14 @@ int main(int argc, char **argv)
       printf("# %s seed=%s sessions=%ld calls=%ld witnesses=%ld\n", argv[1], argv[2], n, G.n_calls, G.n_w);
       return 0;
    }
-   fprintf(stderr, "usage: c01_decskel rand|ms <seed> <sessions> [quiet]\n");
+   if (argc >= 4 && !strcmp(argv[1], "insp")) {
+      r.s = strtoull(argv[2], 0, 10) * 0xD1342543DE82EF95ULL + 0x3C6EF372FE94F82BULL; r.s ^= vnext(&r) >> 7; n = atol(argv[3]);
+      G.quiet = argc >= 5 && !strcmp(argv[4], "quiet");
+      run_insp(&r, n);
+      printf("# insp seed=%s sessions=%ld calls=%ld witnesses=%ld\n", argv[2], n, G.n_calls, G.n_w);
+      return 0;
+   }
+   fprintf(stderr, "usage: c01_decskel rand|ms|insp <seed> <sessions> [quiet]\n");
    return 64;
 }
 #endif
